@@ -492,6 +492,41 @@ def run(ctx):
     finally:
         codec_mod._registry = saved_registry
         shutil.rmtree(tmp, ignore_errors=True)
+    # a pipeline run as a script: its result types (a frozen dataclass, an enum, a class with __eq__) are defined in
+    # the script itself, that is in __main__. The script is run twice on one local store: the second process is served the stored
+    # results, which are equal to what the functions build and are instances of the script's own classes
+    SCRIPT = ("import sys\nsys.path.insert(0, %(repo)r)\nimport collections, dataclasses, enum, json\nimport dds\n\n"
+              "@dataclasses.dataclass(frozen=True)\nclass Point:\n    x: int\n    y: float\n\n"
+              "class Color(enum.Enum):\n    RED = 1\n    GREEN = 2\n\n"
+              "class Label(object):\n    def __init__(self, text):\n        self.text = text\n    def __eq__(self, other):\n        return type(other) is type(self) and other.text == self.text\n"
+              "    def __hash__(self):\n        return hash(self.text)\n\n"
+              "def expected():\n    return {'points': [Point(1, 2.5), Point(-3, float('inf'))], 'color': Color.GREEN, 'label': Label('caf\\u00e9'), 'pair': (1, (2, 3))}\n\n"
+              "def build():\n    sys.stderr.write('RAN build\\n')\n    return expected()\n\n"
+              "@dds.data_function('/script/direct')\ndef direct():\n    sys.stderr.write('RAN direct\\n')\n    return [Color.RED, Point(0, 0.0)]\n\n"
+              "dds.set_store('local', internal_dir=%(si)r, data_dir=%(sd)r)\n"
+              "got = dds.keep('/script/built', build)\nd = direct()\nloaded = dds.load('/script/built')\n"
+              "def ok(v):\n    return (v == expected() and type(v['points'][0]) is Point and v['color'] is Color.GREEN and type(v['label']) is Label and type(v['pair']) is tuple)\n"
+              "print('RESULT ' + json.dumps({'kept_ok': ok(got), 'loaded_ok': ok(loaded), 'direct_ok': d == [Color.RED, Point(0, 0.0)] and d[0] is Color.RED and type(d[1]) is Point}))\n")
+    tmps = tempfile.mkdtemp(prefix="ddsverif_c17s_")
+    try:
+        with open(os.path.join(tmps, "pipeline.py"), "w") as fh:
+            fh.write(SCRIPT % {"repo": common.REPO, "si": os.path.join(tmps, "si"), "sd": os.path.join(tmps, "sd")})
+        outs = []
+        for run_i in (1, 2, 3):
+            cp = subprocess.run([sys.executable, "-B", os.path.join(tmps, "pipeline.py")], capture_output=True, text=True, cwd=tmps, timeout=300)
+            lines = [l for l in cp.stdout.splitlines() if l.startswith("RESULT ")]
+            outs.append(dict(json.loads(lines[-1][7:]), ran=[l[4:] for l in cp.stderr.splitlines() if l.startswith("RAN ")]) if lines
+                        else {"error": (cp.stderr.strip().splitlines() or ["no output"])[-1][:300]})
+            res.evaluations += 1
+            res.count("script_runs")
+            res.nontrivial("script run %d" % run_i)
+        want = [{"ran": ["build", "direct"], "kept_ok": True, "loaded_ok": True, "direct_ok": True}] + [{"ran": [], "kept_ok": True, "loaded_ok": True, "direct_ok": True}] * 2
+        if outs != want:
+            res.violations.append({"what": "a pipeline script whose result types are defined in the script (__main__) is run three times on one local store: the results "
+                                           "served are not equal to what the functions build / not instances of the script's classes: %s" % (outs,),
+                                   "input": {"script": SCRIPT % {"repo": "<repo>", "si": "<internal>", "sd": "<data>"}}, "kf": None})
+    finally:
+        shutil.rmtree(tmps, ignore_errors=True)
     res.rule = ("registry: %d seeded registration sequences (0..6 of add_codec / add_file_codec over 4 references x 5 types) each with 12 "
                 "get_codec queries; end to end: %d values (empty / non-ASCII / 1 MB text and bytes, None, objects, pandas frame, user type) x "
                 "{same process, after add_file_codec, after add_codec on top, fresh process}; one case = one sequence / one value" % (len(reqs), len(values(rng))))
